@@ -1,5 +1,4 @@
 from sympy.physics import units
-from sympy.physics.units import convert_to
 from .quantities import Quantity
 
 
@@ -33,5 +32,8 @@ def from_kelvin(value: float) -> Celsius:
 
 
 def from_kelvin_quantity(value: Quantity) -> Celsius:
-    kelvin_value = float(convert_to(value, units.kelvin).subs(units.kelvin, 1).evalf())
+    # NOTE: SymPy's `convert_to` leaves a zero-valued quantity (exactly 0 K) unconverted
+    from ..convert import convert_to  # pylint: disable=import-outside-toplevel
+
+    kelvin_value = float(convert_to(value, units.kelvin))
     return from_kelvin(kelvin_value)
